@@ -314,6 +314,11 @@ def foreign_scenarios(cases, prop):
             pol["terms"][0]["accept"] = False
         elif sh == "reject-only":
             pol["terms"] = []
+        elif sh == "term-without-filters":
+            pol["terms"][0]["filters"] = []          # `from family inet; then accept`: every IPv4 route
+        elif sh == "both-terms-without-filters":
+            for t in pol["terms"]:
+                t["filters"] = []
         elif sh in ("exact-filter", "orlonger-filter", "upto-filter"):
             # a range the targets never ask for, written with a match type the agent itself never writes
             kind = {"exact-filter": "exact", "orlonger-filter": "orlonger", "upto-filter": "upto /11"}[sh]
